@@ -246,108 +246,135 @@ def itext (v : IVal) : Except Err Str :=
 
 def typeOf (d : Desc) : Except Err Bytes := match d.lookup Gen.BF3TAG_TYPE with | some t => .ok t | none => .error .keyError
 
-/-- `exec_bf2instrs`: returns the remaining instructions and the comments even when it stops early -/
-def execInstrs (ins : Instrs) (desc : Desc) (cm : Comments) : ExecResult × Instrs × Comments :=
-  let fail (e : Err) (i : Instrs) (c : Comments) : ExecResult × Instrs × Comments := (.error e, i, c)
-  -- 1. REBOOT
-  let (desc, ins) := if (lookupS ins "REBOOT".toList).isSome then (descSet desc Gen.BF3TAG_REBOOT [1], idel ins "REBOOT".toList) else (desc, ins)
-  -- 2. CRC
-  match (match lookupS ins "CRC".toList with
-    | none => Except.ok (desc, ins)
-    | some v => do
-      let s ← itext v
-      let x ← pyInt 16 (s.drop 2)
-      let b ← intToBytes 4 x
-      pure (descSet desc Gen.BF3TAG_CRC b, idel ins "CRC".toList)) with
-  | .error e => fail e (idel ins "CRC".toList) cm
-  | .ok (desc, ins) =>
-  -- 3. SELECT
-  match (match lookupS ins "SELECT".toList with
-    | none => Except.ok desc
-    | some v => do
-      let f ← iparam v "FILTER".toList
-      let pf ← hex2bin f
-      let desc := descSet desc Gen.BF3TAG_PFID2 pf
-      let t ← typeOf desc
-      if t == [UInt8.ofNat Gen.BF3TYPE_PERIPHERAL] then
-        let txt := hexUpperSpaced pf
-        match Gen.PFID2_SPECIAL.find? (fun (p : String × Nat) => p.1.toList == txt) with
-        | some (_, hw) => do let hb ← toBytesBE 2 hw; pure (descSet desc Gen.BF3TAG_HWCID hb)
-        | none => if startsWith "01 01".toList txt then pure (descSet desc Gen.BF3TAG_HWCID (pf.drop (pf.length - 2)))
-                  else throw Err.formatBf3
-      else pure desc) with
-  | .error e => fail e ins cm
-  | .ok desc =>
-  -- 4. CHECK_FWVER
-  match (match lookupS ins "CHECK_FWVER".toList with
-    | none => Except.ok (desc, ins)
-    | some v =>
-      let ins' := idel ins "CHECK_FWVER".toList
-      match iparam v "VERSIONDESC".toList with
+def slice' (b : Bytes) (a e : Nat) : Bytes := (b.take e).drop a
+
+/-- a dict stored as comment value (never happens for well-formed input); the harness does not compare it -/
+def paramsRepr (_ : List (Str × Str)) : Str := "<dict>".toList
+
+/-! `exec_bf2instrs`, one definition per `if "<NAME>" in bf2_instrs:` block, in source order -/
+
+/-- 1. REBOOT -/
+def stepReboot (desc : Desc) (ins : Instrs) : Desc × Instrs :=
+  if (lookupS ins "REBOOT".toList).isSome then (descSet desc Gen.BF3TAG_REBOOT [1], idel ins "REBOOT".toList) else (desc, ins)
+
+/-- 2. CRC (`pop`, then `int(crcval[2:], 16).to_bytes(4, "big")`) -/
+def stepCrc (desc : Desc) (ins : Instrs) : Except Err (Desc × Instrs) :=
+  match lookupS ins "CRC".toList with
+  | none => .ok (desc, ins)
+  | some v => do
+    let s ← itext v
+    let x ← pyInt 16 (s.drop 2)
+    let b ← intToBytes 4 x
+    pure (descSet desc Gen.BF3TAG_CRC b, idel ins "CRC".toList)
+
+/-- 3. SELECT -/
+def stepSelect (desc : Desc) (ins : Instrs) : Except Err Desc :=
+  match lookupS ins "SELECT".toList with
+  | none => .ok desc
+  | some v => do
+    let f ← iparam v "FILTER".toList
+    let pf ← hex2bin f
+    let desc := descSet desc Gen.BF3TAG_PFID2 pf
+    let t ← typeOf desc
+    if t == [UInt8.ofNat Gen.BF3TYPE_PERIPHERAL] then
+      let txt := hexUpperSpaced pf
+      match Gen.PFID2_SPECIAL.find? (fun (p : String × Nat) => p.1.toList == txt) with
+      | some (_, hw) => do let hb ← toBytesBE 2 hw; pure (descSet desc Gen.BF3TAG_HWCID hb)
+      | none => if startsWith "01 01".toList txt then pure (descSet desc Gen.BF3TAG_HWCID (pf.drop (pf.length - 2)))
+                else throw Err.formatBf3
+    else pure desc
+
+/-- 4. CHECK_FWVER (`pop`) -/
+def stepFwver (desc : Desc) (ins : Instrs) : Except Err (Desc × Instrs) :=
+  match lookupS ins "CHECK_FWVER".toList with
+  | none => .ok (desc, ins)
+  | some v =>
+    let ins' := idel ins "CHECK_FWVER".toList
+    match iparam v "VERSIONDESC".toList with
+    | .error e => .error e
+    | .ok vd =>
+      if vd == ['*'] then .ok (desc, ins') else
+      match hex2bin vd with
       | .error e => .error e
-      | .ok vd =>
-        if vd == ['*'] then .ok (desc, ins') else
-        match hex2bin vd with
-        | .error e => .error e
-        | .ok ver =>
-          match ver[2]? with
-          | none => .error .indexError
-          | some n => .ok (descSet desc Gen.BF3TAG_FWVER (slice' ver 3 (3 + n.toNat)), ins')) with
-  | .error e => fail e (idel ins "CHECK_FWVER".toList) cm
-  | .ok (desc, ins) =>
-  -- 5. Firmware
-  match (match lookupS ins "Firmware".toList with
-    | none => Except.ok (desc, cm)
-    | some v => do
-      let f ← itext v
-      let cm := dictSetStr (dictSetStr cm "FirmwareId".toList (slice f 0 4)) "FirmwareVersion".toList (slice f 15 22)
-      let fwver := slice f 15 22
-      if startsWith "D-".toList fwver then pure (desc, cm) else
-        -- errors below leave the two comments set
-        pure (desc, cm)) with
-  | .error e => fail e ins cm
-  | .ok (desc, cm) =>
-  match (match lookupS ins "Firmware".toList with
-    | none => Except.ok desc
-    | some v => do
-      let f ← itext v
-      let fwver := slice f 15 22
-      if startsWith "D-".toList fwver then pure desc else do
-        let idn ← pyInt 10 (slice f 0 4)
-        let idb ← intToBytes 2 idn
-        let parts ← (splitOnChar '.' fwver).mapM (pyInt 10)
-        let vb ← parts.mapM (fun (x : Int) => if x < 0 ∨ x > 255 then Except.error Err.valueError else Except.ok (UInt8.ofNat x.toNat))
-        let t ← typeOf desc
-        if t == [UInt8.ofNat Gen.BF3TYPE_LOADER] || t == [UInt8.ofNat Gen.BF3TYPE_MAIN] then pure (descSet desc Gen.BF3TAG_FWVER (idb ++ vb))
-        else pure desc) with
-  | .error e => fail e ins cm
-  | .ok desc =>
-  -- 6. Creator, 7. Bf3Update
-  match (match lookupS ins "Creator".toList with
-    | none => Except.ok cm
-    | some (.text s) => .ok (dictSetStr cm "Creator".toList (s ++ " + bf2-to-bf3-converter".toList))
-    | some (.params _) => Except.error Err.typeError) with
-  | .error e => fail e ins cm
-  | .ok cm =>
-  let cm := match lookupS ins "Bf3Update".toList with
-    | none => cm
-    | some (.text s) => dictSetStr cm "Bf3Update".toList s
-    | some (.params p) => dictSetStr cm "Bf3Update".toList (paramsRepr p)
-  -- 8. SELECT_IF
+      | .ok ver =>
+        match ver[2]? with
+        | none => .error .indexError
+        | some n => .ok (descSet desc Gen.BF3TAG_FWVER (slice' ver 3 (3 + n.toNat)), ins')
+
+/-- 5a. Firmware: the two comments (set before anything can fail) -/
+def stepFirmwareCm (ins : Instrs) (cm : Comments) : Except Err Comments :=
+  match lookupS ins "Firmware".toList with
+  | none => .ok cm
+  | some v => do
+    let f ← itext v
+    pure (dictSetStr (dictSetStr cm "FirmwareId".toList (slice f 0 4)) "FirmwareVersion".toList (slice f 15 22))
+
+/-- 5b. Firmware: the version tag -/
+def stepFirmware (desc : Desc) (ins : Instrs) : Except Err Desc :=
+  match lookupS ins "Firmware".toList with
+  | none => .ok desc
+  | some v => do
+    let f ← itext v
+    let fwver := slice f 15 22
+    if startsWith "D-".toList fwver then pure desc else do
+      let idn ← pyInt 10 (slice f 0 4)
+      let idb ← intToBytes 2 idn
+      let parts ← (splitOnChar '.' fwver).mapM (pyInt 10)
+      let vb ← parts.mapM (fun (x : Int) => if x < 0 ∨ x > 255 then Except.error Err.valueError else Except.ok (UInt8.ofNat x.toNat))
+      let t ← typeOf desc
+      if t == [UInt8.ofNat Gen.BF3TYPE_LOADER] || t == [UInt8.ofNat Gen.BF3TYPE_MAIN] then pure (descSet desc Gen.BF3TAG_FWVER (idb ++ vb))
+      else pure desc
+
+/-- 6. Creator -/
+def stepCreator (ins : Instrs) (cm : Comments) : Except Err Comments :=
+  match lookupS ins "Creator".toList with
+  | none => .ok cm
+  | some (.text s) => .ok (dictSetStr cm "Creator".toList (s ++ " + bf2-to-bf3-converter".toList))
+  | some (.params _) => .error .typeError
+
+/-- 7. Bf3Update -/
+def stepBf3Update (ins : Instrs) (cm : Comments) : Comments :=
+  match lookupS ins "Bf3Update".toList with
+  | none => cm
+  | some (.text s) => dictSetStr cm "Bf3Update".toList s
+  | some (.params p) => dictSetStr cm "Bf3Update".toList (paramsRepr p)
+
+/-- 8. SELECT_IF -/
+def stepSelectIf (desc : Desc) (ins : Instrs) : ExecResult :=
   match lookupS ins "SELECT_IF".toList with
-  | none => (.ok desc, ins, cm)
+  | none => .ok desc
   | some v =>
     match iparam v "PROTOCOL".toList with
-    | .error e => fail e ins cm
+    | .error e => .error e
     | .ok proto =>
-      if proto == ['*'] then (.ok desc, ins, cm) else
+      if proto == ['*'] then .ok desc else
       match Gen.BF2_INTERFACES.find? (fun (p : String × Nat) => p.1.toList == proto) with
-      | none => (.unsupported, ins, cm)
-      | some (_, n) => (.ok (descSet desc Gen.BF3TAG_INTF [UInt8.ofNat n]), ins, cm)
-where
-  slice' (b : Bytes) (a e : Nat) : Bytes := (b.take e).drop a
-  /-- a dict stored as comment value (never happens for well-formed input); the harness does not compare it -/
-  paramsRepr (_ : List (Str × Str)) : Str := "<dict>".toList
+      | none => .unsupported
+      | some (_, n) => .ok (descSet desc Gen.BF3TAG_INTF [UInt8.ofNat n])
+
+/-- `exec_bf2instrs`: returns the remaining instructions and the comments even when it stops early -/
+def execInstrs (ins : Instrs) (desc : Desc) (cm : Comments) : ExecResult × Instrs × Comments :=
+  let r := stepReboot desc ins
+  match stepCrc r.1 r.2 with
+  | .error e => (.error e, idel r.2 "CRC".toList, cm)
+  | .ok (desc, ins) =>
+  match stepSelect desc ins with
+  | .error e => (.error e, ins, cm)
+  | .ok desc =>
+  match stepFwver desc ins with
+  | .error e => (.error e, idel ins "CHECK_FWVER".toList, cm)
+  | .ok (desc, ins) =>
+  match stepFirmwareCm ins cm with
+  | .error e => (.error e, ins, cm)
+  | .ok cm =>
+  match stepFirmware desc ins with
+  | .error e => (.error e, ins, cm)
+  | .ok desc =>
+  match stepCreator ins cm with
+  | .error e => (.error e, ins, cm)
+  | .ok cm =>
+  let cm := stepBf3Update ins cm
+  (stepSelectIf desc ins, ins, cm)
 
 /-! ### annotations and the platform filter -/
 
@@ -380,41 +407,59 @@ def pfid2FilterToStr (f : Bytes) : Except Err Str :=
 
 def decimalStr (n : Nat) : Str := ConfigId.decimal n
 
+def hexNoPad (n : Nat) : Str :=
+  let rec go : Nat → Nat → Str → Str
+    | 0, _, acc => acc
+    | f+1, m, acc => if m < 16 then hexDigitUpper m :: acc else go f (m / 16) (hexDigitUpper (m % 16) :: acc)
+  go (n + 1) n []
+
+/-- loader: `rev_intf_map[intf] + " Loader Firmware"` -/
+def loaderName (c : Comp) : Except Err Str :=
+  match c.desc.lookup Gen.BF3TAG_INTF with
+  | none => .error .formatBf3            -- `if BF3TAG.INTF not in comp.description: raise Bf3FileFormatError`
+  | some b =>
+    match Gen.REV_INTF_MAP.find? (fun p => p.1 == fromBE b) with
+    | some (_, n) => .ok (n.toList ++ " Loader Firmware".toList)
+    | none => .error .keyError
+
+/-- the version suffix of a peripheral's comment -/
+def versionStr (name : Str) (ver : Option Bytes) : Except Err Str :=
+  match ver with
+  | none => .ok []
+  | some [] => .ok []
+  | some v =>
+    if name.take 2 == "SM".toList && v.length ≥ 4 then
+      .ok (' ' :: joinWith ['.'] ((v.take 4).map (fun b => decimalStr b.toNat)))
+    else if name.take 3 == "BGM".toList && v.length ≥ 7 then
+      (match ConfigId.decodeUtf8 v with
+        | some s => .ok (" Version ".toList ++ s)
+        | none => .error .unicodeError)
+    else .ok (" Version ".toList ++ hexUpper v)
+
+def peripheralName (c : Comp) : Except Err Str :=
+  match c.desc.lookup Gen.BF3TAG_HWCID with
+  | none => .error .keyError
+  | some b =>
+    let h := fromBE b
+    let name := match hwcName h with | some n => n | none => "HWC 0x".toList ++ hexNoPad h
+    versionStr name (c.desc.lookup Gen.BF3TAG_FWVER) >>= fun ver => .ok (name ++ " Firmware".toList ++ ver)
+
+def baseName (c : Comp) : Except Err Str :=
+  match c.desc.lookup Gen.BF3TAG_TYPE with
+  | none => .error .keyError
+  | some tb =>
+    let t := fromBE tb
+    if t = Gen.BF3TYPE_MAIN then .ok "Main Firmware".toList
+    else if t = Gen.BF3TYPE_LOADER then loaderName c
+    else if t = Gen.BF3TYPE_PERIPHERAL then peripheralName c
+    else .error .formatBf3
+
 /-- one `Component<i>` comment of `annotations` -/
-def annotation (c : Comp) : Except Err Str := do
-  let t ← match c.desc.lookup Gen.BF3TAG_TYPE with | some t => pure (fromBE t) | none => throw Err.keyError
-  let base ←
-    if t = Gen.BF3TYPE_MAIN then pure "Main Firmware".toList
-    else if t = Gen.BF3TYPE_LOADER then do
-      let i ← match c.desc.lookup Gen.BF3TAG_INTF with | some b => pure (fromBE b) | none => throw Err.keyError
-      match Gen.REV_INTF_MAP.find? (fun p => p.1 == i) with
-      | some (_, n) => pure (n.toList ++ " Loader Firmware".toList)
-      | none => throw Err.keyError
-    else if t = Gen.BF3TYPE_PERIPHERAL then do
-      let h ← match c.desc.lookup Gen.BF3TAG_HWCID with | some b => pure (fromBE b) | none => throw Err.keyError
-      let name := match hwcName h with | some n => n | none => "HWC 0x".toList ++ hexNoPad h
-      let ver : Str ← match c.desc.lookup Gen.BF3TAG_FWVER with
-        | none => pure []
-        | some [] => pure []
-        | some v =>
-          if name.take 2 == "SM".toList && v.length ≥ 4 then
-            pure (' ' :: joinWith ['.'] ((v.take 4).map (fun b => decimalStr b.toNat)))
-          else if name.take 3 == "BGM".toList && v.length ≥ 7 then
-            (match ConfigId.decodeUtf8 v with
-              | some s => pure (" Version ".toList ++ s)
-              | none => throw Err.unicodeError)
-          else pure (" Version ".toList ++ hexUpper v)
-      pure (name ++ " Firmware".toList ++ ver)
-    else throw Err.formatBf3
+def annotation (c : Comp) : Except Err Str :=
+  baseName c >>= fun base =>
   match c.desc.lookup Gen.BF3TAG_PFID2 with
-  | none => pure base
-  | some f => do let s ← pfid2FilterToStr f; pure (base ++ "    [PFID2-Filter: ".toList ++ s ++ [']'])
-where
-  hexNoPad (n : Nat) : Str :=
-    let rec go : Nat → Nat → Str → Str
-      | 0, _, acc => acc
-      | f+1, m, acc => if m < 16 then hexDigitUpper m :: acc else go f (m / 16) (hexDigitUpper (m % 16) :: acc)
-    go (n + 1) n []
+  | none => .ok base
+  | some f => pfid2FilterToStr f >>= fun s => .ok (base ++ "    [PFID2-Filter: ".toList ++ s ++ [']'])
 
 /-! ### the importer -/
 
@@ -424,23 +469,27 @@ structure IState where
   comps : List Comp
   comments : Comments
 
+/-- the description `emit_bf3comp` starts from: FMT, TYPE and, when the tag-type map has them, HWCID and INTF -/
+def desc0 (ty fmtN : Nat) (hw intf : Option Nat) : Desc :=
+  [(Gen.BF3TAG_FMT, [UInt8.ofNat fmtN]), (Gen.BF3TAG_TYPE, [UInt8.ofNat ty])]
+    ++ (match hw with | some h => [(Gen.BF3TAG_HWCID, toBE 2 h)] | none => [])
+    ++ (match intf with | some i => [(Gen.BF3TAG_INTF, [UInt8.ofNat i])] | none => [])
+
 /-- `emit_bf3comp()` -/
 def emit (s : IState) : Except Err IState :=
   match s.fwdata with
-  | [] => .error .indexError
+  | [] => .error .formatBf3           -- `if not bf2_fwdata: raise Bf3FileFormatError`
   | l0 :: _ =>
     match Gen.BF2_TAGTYPE_MAP.lookup l0.typ with
     | none => .error .unsupportedTagType
     | some (none, _, _, _) => .ok s
     | some (some ty, hw, fmt, intf) =>
       let fmtN := fmt.getD 0
-      let desc : Desc := [(Gen.BF3TAG_FMT, [UInt8.ofNat fmtN]), (Gen.BF3TAG_TYPE, [UInt8.ofNat ty])]
-      let desc := match hw with | some h => desc ++ [(Gen.BF3TAG_HWCID, toBE 2 h)] | none => desc
-      let desc := match intf with | some i => desc ++ [(Gen.BF3TAG_INTF, [UInt8.ofNat i])] | none => desc
-      match execInstrs s.instrs desc s.comments with
+      match execInstrs s.instrs (desc0 ty fmtN hw intf) s.comments with
       | (.unsupported, ins, cm) => .ok { s with instrs := ins, comments := cm }
       | (.error e, _, _) =>
-        if e == .valueError || e == .indexError || e == .keyError || e == .formatBf3 then .error .formatBf3 else .error e
+        if e == .valueError || e == .indexError || e == .keyError || e == .typeError || e == .overflowError
+            || e == .formatBf3 then .error .formatBf3 else .error e
       | (.ok d, ins, cm) => do
         let content ← convertPayload s.fwdata fmtN
         pure { fwdata := [], instrs := ins, comps := s.comps ++ [mkComp d content none false], comments := cm }
@@ -458,10 +507,10 @@ def importStep (s : IState) (o : Obj) : Except Err IState :=
         let s' ← emit s
         pure { s' with fwdata := lines }
       else pure { s with fwdata := s.fwdata ++ lines }
-  | .instr name v => do
-    let s1 ← if name == "CHECK_FWVER".toList && (lookupS s.instrs "CHECK_FWVER".toList).isSome then emit s else pure s
-    let s2 := { s1 with instrs := dictSetStr s1.instrs name v }
-    if name == "REBOOT".toList then emit s2 else pure s2
+  | .instr name v =>
+    (if name == "CHECK_FWVER".toList && (lookupS s.instrs "CHECK_FWVER".toList).isSome then emit s else .ok s) >>= fun s1 =>
+    if name == "REBOOT".toList then emit { s1 with instrs := dictSetStr s1.instrs name v }
+    else .ok { s1 with instrs := dictSetStr s1.instrs name v }
 
 def insertByType (c : Comp) : List Comp → List Comp
   | [] => [c]
@@ -483,16 +532,22 @@ def annotate : Nat → List Comp → Comments → Except Err Comments
     let a ← annotation c
     annotate (i + 1) cs (dictSetStr cm ("Component".toList ++ decimalStr i) a)
 
+/-- `parse_bf2_file` inside its `try`: `ValueError`, `IndexError`, `KeyError` become the format error -/
+def parseObjs (text : Str) : Except Err (List Obj) :=
+  match parseFile text with
+  | .ok o => .ok o
+  | .error e => if e == .valueError || e == .indexError || e == .keyError then .error .formatBf3 else .error e
+
+/-- what follows the object loop: last section, legacy check, sort, annotate -/
+def finish (enforce : Bool) (s : IState) : Except Err (Comments × List Comp) :=
+  (if s.fwdata.isEmpty then .ok s else emit s) >>= fun s =>
+  if enforce && (lookupS s.comments "Bf3Update".toList).isNone then .error .unsupportedLegacy else
+  annotate 0 (sortComps s.comps) s.comments >>= fun cm => .ok (cm, sortComps s.comps)
+
 /-- `bf2_import(text, enforce_bf3_compatibility)` -/
-def bf2Import (text : Str) (enforce : Bool) : Except Err (Comments × List Comp) := do
-  let objs ← match parseFile text with
-    | .ok o => pure o
-    | .error e => if e == .valueError || e == .indexError || e == .keyError then throw Err.formatBf3 else throw e
-  let s ← objs.foldlM importStep { fwdata := [], instrs := [], comps := [], comments := [] }
-  let s ← if s.fwdata.isEmpty then pure s else emit s
-  if enforce && (lookupS s.comments "Bf3Update".toList).isNone then throw Err.unsupportedLegacy
-  let sorted := sortComps s.comps
-  let cm ← annotate 0 sorted s.comments
-  pure (cm, sorted)
+def bf2Import (text : Str) (enforce : Bool) : Except Err (Comments × List Comp) :=
+  parseObjs text >>= fun objs =>
+  objs.foldlM importStep { fwdata := [], instrs := [], comps := [], comments := [] } >>= fun s =>
+  finish enforce s
 
 end Bec2Verif.Bf2
